@@ -15,7 +15,7 @@
    10.9.(n/16 / 256).(n/16 mod 256) : 40000 + n mod 16, so ip_of n = n / 16.          *)
 From Coq Require Export List NArith Bool.
 Export ListNotations.
-Open Scope N_scope.
+Local Open Scope N_scope.
 
 (* ---------- inputs / outputs, common to all services ---------- *)
 
